@@ -237,6 +237,7 @@ class Inst:
     def __init__(self, job):
         from vf.specs import exec_module
 
+        self.method_note = 'histories enumerated by forks; compilation concrete (NoTracing); warm vs cold compiled methods compared on symbolic data'
         self.job = job
         mod = exec_module("vf_c09_prog", SRC)
         self.ns = mod.__dict__
